@@ -669,7 +669,8 @@ fn le64(v: u64) -> [u8; 8] {
     v.to_le_bytes()
 }
 const HOSTILE_COUNTS: [u64; 9] = [0, 1, 1 << 20, 0xFFFF_FFFF, 0x1_0000_0000, 1 << 32 | 7, 1 << 63, u64::MAX - 1, u64::MAX];
-const HOSTILE_BS: [u64; 12] = [0, 1, 3, 256, 511, 513, 1000, 65537, 131072, 1 << 32, 1 << 63, u64::MAX];
+// (2^32 + 4096 and 2^40 + 2048: valid in their low 32 bits only - the field is a usize, 8 bytes on disk)
+const HOSTILE_BS: [u64; 14] = [0, 1, 3, 256, 511, 513, 1000, 65537, 131072, 1 << 32, (1 << 32) | 4096, (1 << 40) | 2048, 1 << 63, u64::MAX];
 
 fn put(b: &[u8], off: usize, v: &[u8]) -> Vec<u8> {
     let mut x = b.to_vec();
